@@ -88,6 +88,10 @@ func (in *Interp) callFn(fn *ssa.Function, args []Value, bind []Value) Value {
 			if mf := in.P.lookupFunc(fn.Pkg, "verifModel_"+name); mf != nil {
 				return in.callFunction(mf, args, nil)
 			}
+			// standard-library convention: the portable Go twin of an assembly routine is <name>_g (math/big)
+			if mf := in.P.lookupFunc(fn.Pkg, name+"_g"); mf != nil && mf.Blocks != nil {
+				return in.callFunction(mf, args, nil)
+			}
 		}
 		fail("call of body-less function %s without model", full)
 	}
